@@ -379,6 +379,11 @@ func genC07(r *rng, n int) {
 			if len(bs) > 6000 {
 				continue
 			}
+			// half of the messages are fed in a non-ascending wire order (groups of one field number shuffled,
+			// recursively): the model's decoder accepts any order, so every expectation is unchanged
+			if vr.chance(50) {
+				bs = c.permuteWire(vr, s.Root, bs)
+			}
 			dump, err := c.dumpRef(bs, s.Root)
 			if err != nil {
 				die("C07: reference decode: %v", err)
